@@ -58,6 +58,7 @@ class Check:
                         "pyvc symbolic executor (vp/pyvc)"]
         self.violations = []          # (description, replay path)
         self.known_printed = []
+        self.known_bases = set()
         self.undecided = []
         self.vacuity = []
         self.notes = []
@@ -262,9 +263,16 @@ class Check:
             return k
         return None
 
+    def has_unlisted_failure(self):
+        """a failed obligation that is not a listed known finding: it has been reported as a
+        violation already, so a failure of the bounded stand-in of the same contract is
+        explained by it (a known finding explains nothing else)"""
+        return any(i.status == "failed" and i.name not in self.known_bases for i in self.items)
+
     def report_violation(self, base, rp, what, confirmed):
         k = self.is_known(rp, what)
         if k is not None:
+            self.known_bases.add(base)
             line = f"KNOWN-FINDING: property={self.pid} {k['what']}"
             if line not in self.known_printed:
                 print(line)
